@@ -27,7 +27,8 @@ import struct
 
 from vlib import core, emu, obs, tv
 
-TRACED = "mkdir,openat,open,write,close,unlink,rmdir,read,getdents64"
+# (the stat family is traced for fault injection only: the model's Script does not list these calls)
+TRACED = "mkdir,openat,open,write,close,unlink,rmdir,read,getdents64,newfstatat,stat,lstat,statx"
 
 
 def scenario_script(name):
@@ -488,7 +489,8 @@ def main(pid, tier):
                     pts.append(i)
             errs = {"write": ["ENOSPC", "EIO"], "mkdir": ["EACCES", "ENOSPC"], "openat": ["EACCES", "ENOSPC"],
                     "open": ["EACCES"], "close": ["EIO"], "unlink": ["EACCES"], "rmdir": ["EACCES"],
-                    "read": ["EIO"], "getdents64": ["EIO"]}
+                    "read": ["EIO"], "getdents64": ["EIO"], "newfstatat": ["EIO", "ESTALE"], "stat": ["EIO"],
+                    "lstat": ["EIO"], "statx": ["EIO"]}
             jobs = []
             for i in pts:
                 es = errs.get(ref["calls"][i]["sys"], ["EIO"])
